@@ -185,13 +185,14 @@ def run(prog, rep):
     rep.ob("C06.2", to, "take_ownership", len(st_) == 1, "take_ownership sets sem_created" if len(st_) == 1 else "take_ownership does not set sem_created", to.loc[0])
     # writers of sem_created across the unit
     writers = set()
-    for f in u.functions.values():
+    for f in u.roots():                    # a static helper only ever called by the create path belongs to the create path
         for b, i, n in f.nodes():
             if n["k"] == "asg":
                 l = strip_casts(n["l"])
                 if l is not None and l["k"] == "member" and l["field"] == "sem_created" and cv(n["r"]) != 0:
-                    writers.add(f.name)
-    okw = writers <= {"pp_semaphore_create_handle", "p_semaphore_take_ownership"}
+                    creator = any(c.get("callee") == "sem_open" and (cv(c["args"][1]) or 0) & 0o300 == 0o300 for (b2, i2, c) in f.calls())
+                    writers.add("the creation path" if creator else f.name)
+    okw = writers <= {"the creation path", "p_semaphore_take_ownership"}
     rep.ob("C06.2", ch, "owner:writers", okw, "sem_created is set TRUE only in the create path and take_ownership" if okw else "sem_created is also set in %s" % sorted(writers), ch.loc[0])
     fr = u.fn("p_semaphore_free").inlined()
     cs = [c.get("callee") for (b, i, c) in fr.calls()]
